@@ -161,26 +161,37 @@ def risePst (sy : Sy) (riseObs : List String) : Pst :=
     command := "bash simulate-rise.sh"
     io := ["rise_pars.yml.tpl  rise_pars.yml", "rise_observations.ins  rise_observations.yml"] }
 
-def curvesPst (sy : Sy) (nT : Nat) (riseObs recObs : List String) : Pst :=
-  let (groups, params) : List String × List Param :=
-    match sy with
-    | .spline _ n =>
-      (["sy_knot     " ++ GROUP_TAIL, "k_knot      " ++ GROUP_TAIL, "T_min       " ++ GROUP_TAIL],
-       (List.range n).map (fun i =>
-         { name := "sy_knot_" ++ toString (i + 1), rest := "  none relative  NaN  0.01     1       sy_knot  1.0  0.0  1" }) ++
-       (List.range nT).map (fun i =>
-         { name := "k_knot_" ++ toString (i + 1), rest := "   log  factor    NaN  1.0e-04  1.0e+5  k_knot   1.0  0.0  1" }) ++
-       [{ name := "T_min", rest := "      log  factor    NaN  1.0e-04  1.0e+5  T_min    1.0  0.0  1" }])
-    | .peatclsm =>
-      (["sd          " ++ GROUP_TAIL, "theta_s     " ++ GROUP_TAIL, "b           " ++ GROUP_TAIL,
-        "psi_s       " ++ GROUP_TAIL, "Ksmacz0     " ++ GROUP_TAIL, "alpha       " ++ GROUP_TAIL],
-       [{ name := "sd", rest := "          none relative   NaN  0.0      2.0        sd         1.0  0.0  1" },
-        { name := "theta_s", rest := "     none relative   NaN  0.01     1          theta_s    1.0  0.0  1" },
-        { name := "b", rest := "           none relative   NaN  0.01     20.0       b          1.0  0.0  1" },
-        { name := "psi_s", rest := "       none relative   NaN  -1.0     -0.01      psi_s      1.0  0.0  1" },
-        { name := "Ksmacz0", rest := "     log  factor     NaN  1.0e-04  1.0e+5  Ksmacz0    1.0  0.0  1" },
-        { name := "alpha", rest := "       none relative   NaN  1        20.0       alpha      1.0  0.0  1" }])
-  { groups := groups, params := params, obsGroups := ["storageobs", "timeobs"]
+/-- groups and parameter lines that the specific-yield section contributes to the curves control file -/
+def syPstCurves : Sy → List String × List Param
+  | .spline _ n =>
+    (["sy_knot     " ++ GROUP_TAIL],
+     (List.range n).map (fun i =>
+       { name := "sy_knot_" ++ toString (i + 1), rest := "  none relative  NaN  0.01     1       sy_knot  1.0  0.0  1" }))
+  | .peatclsm =>
+    (["sd          " ++ GROUP_TAIL, "theta_s     " ++ GROUP_TAIL, "b           " ++ GROUP_TAIL,
+      "psi_s       " ++ GROUP_TAIL],
+     [{ name := "sd", rest := "          none relative   NaN  0.0      2.0        sd         1.0  0.0  1" },
+      { name := "theta_s", rest := "     none relative   NaN  0.01     1          theta_s    1.0  0.0  1" },
+      { name := "b", rest := "           none relative   NaN  0.01     20.0       b          1.0  0.0  1" },
+      { name := "psi_s", rest := "       none relative   NaN  -1.0     -0.01      psi_s      1.0  0.0  1" }])
+
+/-- groups and parameter lines that the transmissivity section contributes -/
+def trPstCurves : Tr → List String × List Param
+  | .spline _ kk _ =>
+    (["k_knot      " ++ GROUP_TAIL, "T_min       " ++ GROUP_TAIL],
+     (List.range kk.length).map (fun i =>
+       { name := "k_knot_" ++ toString (i + 1), rest := "   log  factor    NaN  1.0e-04  1.0e+5  k_knot   1.0  0.0  1" }) ++
+     [{ name := "T_min", rest := "      log  factor    NaN  1.0e-04  1.0e+5  T_min    1.0  0.0  1" }])
+  | .peatclsm _ _ _ =>
+    (["Ksmacz0     " ++ GROUP_TAIL, "alpha       " ++ GROUP_TAIL],
+     [{ name := "Ksmacz0", rest := "     log  factor     NaN  1.0e-04  1.0e+5  Ksmacz0    1.0  0.0  1" },
+      { name := "alpha", rest := "       none relative   NaN  1        20.0       alpha      1.0  0.0  1" }])
+
+/-- `pestfiles curves pst`: each section of the parameter file contributes the groups and parameters of
+    its own type (spowtd/pestfiles.py generate_curves_pst_file) -/
+def curvesPst (sy : Sy) (tr : Tr) (riseObs recObs : List String) : Pst :=
+  { groups := (syPstCurves sy).1 ++ (trPstCurves tr).1, params := (syPstCurves sy).2 ++ (trPstCurves tr).2
+    obsGroups := ["storageobs", "timeobs"]
     obs := riseObs.zipIdx.map (fun p => { name := obsName (p.2 + 1), value := p.1, group := "storageobs" }) ++
            recObs.zipIdx.map (fun p => { name := obsName (riseObs.length + p.2 + 1), value := p.1, group := "timeobs" })
     command := "bash simulate-curves.sh"
